@@ -49,7 +49,7 @@ func mkCDImage(root string, im cdImg, seed byte) {
 func TestC17(t *testing.T) {
 	r := NewReporter(t)
 	defer r.Done()
-	r.Rule("7 raw sector sizes x {ISO9660, PLAYSTATION, no} signature x image sizes around the 2 MiB / 848 MiB detection window x (start,count) incl. count 0, start != count and ranges crossing EOF; two-image histories on one connection and CLOSEFILE; transfer buffer sizes {1,3,512,1000,1500,2047,2048,2049,4096,unpooled}; distinct by (image(s), request sequence)")
+	r.Rule("7 raw sector sizes x {ISO9660, PLAYSTATION, no} signature x image sizes around the 2 MiB / 848 MiB detection window x (start,count) incl. count 0, start != count, ranges crossing EOF and start sectors at byte offsets around 2^32 and up to 2^32-1 sectors, incl. a sparse image of 4 GiB + 3 MiB; two-image histories on one connection and CLOSEFILE; transfer buffer sizes {1,3,512,1000,1500,2047,2048,2049,4096,unpooled}; distinct by (image(s), request sequence)")
 	w := newWorld(t, "srv/root")
 	defer w.Cleanup()
 	sizes := []int64{0x200000 - 1, 0x200000, 3 << 20, 0x35000000, 0x35000000 + 1}
@@ -103,7 +103,10 @@ func TestC17(t *testing.T) {
 		o := fileObj(filepath.Join(w.Root, im.name))
 		r.Outcome(sprintf("detected-sector-%d", o.cdSector))
 		nsect := uint32((im.size - 24) / int64(o.cdSector))
-		starts := []uint32{0, 1, 2, 5, 17, nsect - 2, nsect - 1, nsect, nsect + 5}
+		// ... and start sectors whose byte offset no longer fits 32 bits (first such sector for this sector size,
+		// 2^21, 2^31, the largest value): all far beyond the end of these images
+		wrap := uint32((int64(1)<<32 + int64(o.cdSector) - 1) / int64(o.cdSector))
+		starts := []uint32{0, 1, 2, 5, 17, nsect - 2, nsect - 1, nsect, nsect + 5, wrap - 1, wrap, wrap + 1, wrap + 17, 1 << 21, 1 << 31, 0xFFFFFFFF}
 		for _, st := range starts {
 			for _, cnt := range []uint32{0, 1, 2, 3} {
 				run(im.name, []Req{mkReq(opOpenFile, "/"+im.name), cdReq(st, cnt)})
@@ -182,5 +185,24 @@ func TestC17(t *testing.T) {
 		if r.TimeUp() {
 			break
 		}
+	}
+	// a (sparse) image larger than 4 GiB: sectors whose byte offset is around and beyond 2^32 really exist
+	if r.Mine(len(imgs) + 1) {
+		big := cdImg{name: "cd_big.bin", sector: 2352, sig: "none", size: 1<<32 + 3<<20}
+		mkCDImage(w.Root, big, 9)
+		f, err := os.OpenFile(filepath.Join(w.Root, big.name), os.O_WRONLY, 0)
+		must(err)
+		_, err = f.WriteAt(patBytes(9, 1<<32-65536, 131072), 1<<32-65536)
+		must(err)
+		must(f.Close())
+		must(os.Chtimes(filepath.Join(w.Root, big.name), baseTime, baseTime))
+		wrap := uint32((int64(1)<<32 + 2352 - 1) / 2352)
+		last := uint32((big.size - 24) / 2352)
+		for _, st := range []uint32{wrap - 20, wrap - 2, wrap - 1, wrap, wrap + 1, wrap + 20, last - 2, last - 1, last} {
+			for _, cnt := range []uint32{1, 3} {
+				run(big.name, []Req{mkReq(opOpenFile, "/"+big.name), cdReq(st, cnt), cdReq(1, 1)})
+			}
+		}
+		os.Remove(filepath.Join(w.Root, big.name))
 	}
 }
